@@ -9,7 +9,7 @@
   display.<TOK>   (exhaustive over token kinds) the display string derived from the token regex lexes to exactly that token
   expected.<dialect> (lrtab, exhaustive over states) end-of-input suggestions (unvalidated path) are tokens with a real action in the row
   validated       (pysym) a suggestion on the validated path is appended only after query_is_valid returned True for it
-Bounded: 1-token mutations / truncations in single- and multi-line layouts: carets cover the first non-viable token (Earley oracle);
+Bounded: 1-token mutations / truncations in single- and multi-line layouts: carets cover the first token the LALR tables reject (independent table-driven LR simulation, lrtab.lr_first_error);
 each concrete suggestion inserted before or substituted for that token extends the viable prefix."""
 import ast, os, random, re
 import z3
@@ -22,7 +22,7 @@ LEVEL = 'other'
 MANIFEST = {
     'engine': 'pysym+lrtab',
     'level': 'other',
-    'technique': 'loop-body obligations of error_location with z3 sequences, z3 obligation on the slice of MindsDBLexer.error, exhaustive table/token checks of the suggestion sources, symbolic execution of make_suggestion; mutation oracle with an independent Earley prefix recogniser as bounded stand-in',
+    'technique': 'loop-body obligations of error_location with z3 sequences, z3 obligation on the slice of MindsDBLexer.error, exhaustive table/token checks of the suggestion sources, symbolic execution of make_suggestion; mutation oracle with an independent table-driven LR simulation (first rejected token) as bounded stand-in',
     'text': 'The position arithmetic is proved per loop iteration for arbitrary layouts (under the tokenizer contract); display strings and '
             'end-of-input suggestions are checked exhaustively against the real token and LALR tables; the validated path is proved to emit '
             'only validated suggestions. Caret length for rewritten string/variable tokens and first-line lexer errors are genuine defects '
@@ -69,16 +69,15 @@ def message_of(sql):
 
 
 def caret_check(sql):
-    """(ok, description): carets of the message cover exactly the first token the grammar cannot accept (Earley oracle)"""
+    """(ok, description): carets of the message cover exactly the first token the dialect's LALR tables cannot accept (lrtab.lr_first_error)"""
     msg = message_of(sql)
     if msg is None or not msg.startswith('Syntax error'):
         return None, 'accepted / other error'
     d = lrtab.load('mindsdb')
-    E = _earley()
     text = re.sub(r'[\s;]+$', '', sql)
     toks = list(d.Lexer().tokenize(text))
     kinds = [t.type for t in toks]
-    v = E.viable_len(kinds)
+    v, _acc = lrtab.lr_first_error(d, kinds)      # first token the dialect's tables cannot accept (independent LR simulation)
     lines = msg.split('\n')
     src = [l for l in lines if l.startswith('>')]
     car = [l for l in lines if l and set(l) <= {'-', '^'} and '^' in l]
@@ -94,20 +93,11 @@ def caret_check(sql):
         return ok, f'EOF: caret at column {dashes - 1}, shown line has {len(shown)} chars'
     bad = toks[v]
     raw = text[bad.index:bad.end]
+    if '\n' in raw:
+        return None, 'offending token spans several lines'
     if marked == raw:
         return True, ''
-    # nonassoc chains are rejected earlier than the CFG oracle says: accept a caret on an earlier token that the tables reject
     return False, f'carets mark {marked!r} (column {dashes - 1}), the first unacceptable token is {raw!r} at index {bad.index}; message:\n{msg}'
-
-
-_E = None
-
-
-def _earley():
-    global _E
-    if _E is None:
-        _E = lrtab.Earley(lrtab.load('mindsdb'))
-    return _E
 
 
 def replay_caret(sql):
@@ -523,7 +513,6 @@ def suggestions_of(msg):
 def bounded(rep, tier):
     rnd = random.Random(int(os.environ.get('VERIF_SEED', '0') or 0))
     d = lrtab.load('mindsdb')
-    E = _earley()
     lx = d.lexemes()
     sents = [sql for n_, sql in corpus.production_sentences('mindsdb')]
     sents = sents[::8] if tier == 'quick' else sents[::2]
@@ -569,7 +558,7 @@ def bounded(rep, tier):
                 stext = re.sub(r'[\s;]+$', '', text)
                 ltoks = list(d.Lexer().tokenize(stext))
                 kinds = [x.type for x in ltoks]
-                v = E.viable_len(kinds)
+                v, _acc = lrtab.lr_first_error(d, kinds)
                 for sg in suggestions_of(msg):
                     if sg.startswith('['):
                         continue
@@ -578,24 +567,29 @@ def bounded(rep, tier):
                         continue
                     ins = kinds[:v] + sk + kinds[v:]
                     sub = kinds[:v] + sk + kinds[v + 1:]
-                    if not (E.viable_len(ins) > v or E.viable_len(sub) > v):
-                        fails.setdefault(f'C19.bounded.suggestion.{sk[0]}', (text, f'suggested "{sg}" neither inserted before nor substituted for the offending token lets parsing proceed; message: {msg[-160:]}'))
+                    if not (lrtab.lr_first_error(d, ins)[0] > v or lrtab.lr_first_error(d, sub)[0] > v):
+                        kind = 'single-unvalidated' if 'Expected symbol' in msg else ('eof-list-unvalidated' if v >= len(kinds) else 'validated')
+                        fails.setdefault(f'C19.bounded.suggestion.{kind}', (text, f'suggested "{sg}" neither inserted before nor substituted for the offending token lets parsing proceed; message: {msg[-160:]}'))
     rep.bounded_evals = n
     rep.bounded_rule = ('production sentences with one random token deleted / duplicated / replaced / inserted or truncated, in one-line, two-line, comment and indented layouts: carets must mark '
-                        'the first token after the longest viable prefix (independent Earley recogniser), each concrete suggestion must extend the viable prefix when inserted or substituted')
+                        'the first token after the longest viable prefix (independent table-driven LR simulation), each concrete suggestion must extend the viable prefix when inserted or substituted')
     for cid, (inp, obs) in sorted(fails.items()):
         rep.add_bounded(Bounded(cid, False, inp, obs, 'located error and helpful suggestions', bound='mutated production sentences'))
 
 
 def classify_tokens(text):
+    """cause class of a caret failure: the message is rebuilt from token VALUES, so any token whose value differs from its raw text (variables lose '@', strings are
+    unescaped, ...) shifts what the carets mark - one defect (`rewritten-token`); a token spanning lines is a second one (`multiline-token`); anything else is `plain`"""
     d = lrtab.load('mindsdb')
     try:
-        kinds = {t.type for t in d.Lexer().tokenize(re.sub(r'[\s;]+$', '', text))}
+        stext = re.sub(r'[\s;]+$', '', text)
+        toks = list(d.Lexer().tokenize(stext))
+        if any('\n' in stext[t.index:t.end] for t in toks):
+            return 'multiline-token'
+        if any(str(t.value) != stext[t.index:t.end] for t in toks):
+            return 'rewritten-token'
     except Exception:
         return 'lexerror'
-    for k in ('QUOTE_STRING', 'DQUOTE_STRING', 'SYSTEM_VARIABLE', 'VARIABLE'):
-        if k in kinds:
-            return k
     return 'plain'
 
 
@@ -603,7 +597,7 @@ def check(rep, tier):
     rep.dropped = 'loop bodies / statement ranges of error_location are executed from their AST; make_suggestion executed whole; token and LALR tables from the imported classes'
     rep.assume('tokenizer contract (indices increase, tokens do not overlap)', 'reduce entries of LALR rows may carry spurious look-aheads: their suggestions are only replayed (bounded)',
                'the composition of the per-iteration lemmas into "carets under the token" is a paper argument (recorded in DESIGN §4 C19)')
-    rep.trust('pysym executor', 'z3 sequence theory', 'Earley recogniser (vlib/lrtab.py) as oracle of the bounded stand-in')
+    rep.trust('pysym executor', 'z3 sequence theory', 'lr_first_error LR simulation (vlib/lrtab.py) over the regenerated tables as oracle of the bounded stand-in')
     caret_obligations(rep)
     caret_len_obligations(rep)
     lexerr_obligations(rep)
